@@ -305,7 +305,7 @@ func init() {
 			judge(sc, sc.Requests[0].Kind, sup)
 			return r.Finish()
 		}
-		n := 500
+		n := 1500
 		if thorough() {
 			n = 10000
 		}
